@@ -103,7 +103,7 @@ fn gen_sets(prop: &str, tier: &str) -> Vec<ProgSet> {
             let mut ps: Vec<Program> = kinds.iter().flat_map(|k| programs(*k, &alpha, l2)).collect();
             ps.sort_by(|a, b| (a.ops.len(), a.init, &a.ops).cmp(&(b.ops.len(), b.init, &b.ops)));
             // 2 spawned threads, unbounded
-            let cap2 = if thorough { 4 } else { 3 };
+            let cap2 = if thorough { 5 } else { 3 };
             for m in multisets(&ps, 2) {
                 if m.iter().map(|p| p.ops.len()).sum::<usize>() > cap2 {
                     continue;
